@@ -32,6 +32,8 @@ var (
 	c22AlpsIDs []string             // ids whose spec carries an ALPS extension
 	c22Offer   = map[string][]int{} // id -> offered ALPS code points
 	c22Plain   = []string{"Firefox-120", "Chrome-83", "Safari-16.0", "Golang-0"}
+	// parrots whose spec ends in a pre_shared_key extension (can resume a TLS 1.3 session)
+	c22PskIDs []string
 )
 
 func c22Init() {
@@ -47,6 +49,8 @@ func c22Init() {
 					c22Offer[idName(id)] = append(c22Offer[idName(id)], alpsOld)
 				case *tls.ApplicationSettingsExtensionNew:
 					c22Offer[idName(id)] = append(c22Offer[idName(id)], alpsNew)
+				case *tls.UtlsPreSharedKeyExtension:
+					c22PskIDs = append(c22PskIDs, idName(id))
 				}
 			}
 			if len(c22Offer[idName(id)]) > 0 {
@@ -58,7 +62,7 @@ func c22Init() {
 
 // c22Spec builds a small TLS 1.3/1.2 spec offering ALPS on the given code points
 // ("old", "new", "both", "none") and ALPN iff alpn.
-func c22Spec(offer string, alpn bool) *tls.ClientHelloSpec {
+func c22Spec(offer string, alpn bool, psk bool) *tls.ClientHelloSpec {
 	exts := []tls.TLSExtension{
 		&tls.SNIExtension{},
 		&tls.ExtendedMasterSecretExtension{},
@@ -82,6 +86,10 @@ func c22Spec(offer string, alpn bool) *tls.ClientHelloSpec {
 	case "both":
 		exts = append(exts, &tls.ApplicationSettingsExtension{SupportedProtocols: []string{"h2"}},
 			&tls.ApplicationSettingsExtensionNew{SupportedProtocols: []string{"h2"}})
+	}
+	if psk {
+		// must stay last (RFC 8446 4.2.11); omitted on the wire while there is no session (OmitEmptyPsk)
+		exts = append(exts, &tls.UtlsPreSharedKeyExtension{})
 	}
 	return &tls.ClientHelloSpec{
 		TLSVersMin: tls.VersionTLS12, TLSVersMax: tls.VersionTLS13,
@@ -300,7 +308,22 @@ func init() {
 			// client
 			var id, offer, calpn string
 			var offered []int
+			// prev=1: the observed connection is the second of two over one ClientSessionCache and one
+			// set of server ticket keys (the first, with the same parameters, obtains the ticket), so it
+			// RESUMES a TLS 1.3 session; only clients that can offer a PSK
+			prev := r.Intn(5) == 0
+			psk := ""
 			switch k := r.Intn(10); {
+			case prev && k < 5:
+				id = Pick(r, c22PskIDs)
+				offered = c22Offer[id]
+			case prev && k < 6:
+				id = "Golang-0"
+			case prev:
+				id = "custom"
+				offer = Pick(r, []string{"old", "new", "both", "old", "new"})
+				offered = map[string][]int{"old": {alpsOld}, "new": {alpsNew}, "both": {alpsOld, alpsNew}}[offer]
+				calpn, psk = "1", "1"
 			case k < 4:
 				id = c22AlpsIDs[(i/2)%len(c22AlpsIDs)]
 				offered = c22Offer[id]
@@ -326,6 +349,12 @@ func init() {
 				smax, where = 12, "sh"
 			case 2:
 				where = "sh"
+			}
+			if prev {
+				smax = 13
+				if r.Intn(8) != 0 {
+					where = "ee"
+				}
 			}
 			salpn := Pick(r, []string{"h2", "h2", "h2", "h2", "http/1.1", "none"})
 			one := func(cp int) string { return fmt.Sprintf("%d:%s", cp, hx(c22Settings(r))) }
@@ -366,7 +395,7 @@ func init() {
 			}
 			// HelloRetryRequest (server insists on P-256): only for clients known to take it
 			// (Firefox parrots fail there for an unrelated reason, D06)
-			if where == "ee" && smax == 13 && r.Intn(6) == 0 && (id == "custom" || len(c22Offer[id]) > 0) {
+			if where == "ee" && smax == 13 && r.Intn(6) == 0 && (id == "custom" || len(c22Offer[id]) > 0) && !prev {
 				hrr = 1
 			}
 			if r.Intn(3) == 0 {
@@ -375,6 +404,12 @@ func init() {
 			s := fmt.Sprintf("id=%s smax=%d where=%s salpn=%s salps=%s cset=%s ccert=%d hrr=%d front=%d", id, smax, where, salpn, joinList(sa), cset, ccert, hrr, front)
 			if id == "custom" {
 				s += fmt.Sprintf(" offer=%s calpn=%s", offer, calpn)
+				if psk != "" {
+					s += " psk=1"
+				}
+			}
+			if prev {
+				s += " prev=1"
 			}
 			return s
 		},
@@ -384,10 +419,24 @@ func init() {
 }
 
 func c22ExecHS(in KV) string {
+	if in["prev"] != "1" {
+		return c22OneConn(in, nil, nil)
+	}
+	// two connections over one client session cache and one set of server ticket keys
+	cache := tls.NewLRUClientSessionCache(4)
+	keys := [][32]byte{{0xc2, 0x02, 0x02}}
+	first := c22OneConn(in, cache, keys)
+	fkv := parseKV(strings.Fields(first))
+	second := c22OneConn(in, cache, keys)
+	return second + fmt.Sprintf(" first=%s/%s/%s", fkv["c"], fkv["s"], fkv["ceed"])
+}
+
+// c22OneConn runs one handshake (+ echo, during which the client stores the server's ticket).
+func c22OneConn(in KV, cache tls.ClientSessionCache, ticketKeys [][32]byte) string {
 	var o HSOpts
 	if in["id"] == "custom" {
 		o.ID = tls.HelloCustom
-		o.Spec = c22Spec(in["offer"], in["calpn"] != "0")
+		o.Spec = c22Spec(in["offer"], in["calpn"] != "0", in["psk"] == "1")
 	} else {
 		id, ok := idByName(in["id"])
 		if !ok {
@@ -395,7 +444,7 @@ func c22ExecHS(in KV) string {
 		}
 		o.ID = id
 	}
-	o.ClientCfg = &tls.Config{OmitEmptyPsk: true, ApplicationSettings: c22ParseMap(in["cset"])}
+	o.ClientCfg = &tls.Config{OmitEmptyPsk: true, ApplicationSettings: c22ParseMap(in["cset"]), ClientSessionCache: cache}
 	if o.ID == tls.HelloGolang {
 		o.ClientCfg.NextProtos = []string{"h2", "http/1.1"}
 	}
@@ -411,6 +460,9 @@ func c22ExecHS(in KV) string {
 	}
 	if in["hrr"] == "1" {
 		scfg.CurvePreferences = []tls.CurveID{tls.CurveP256}
+	}
+	if ticketKeys != nil {
+		scfg.SetSessionTicketKeys(ticketKeys)
 	}
 	o.ServerCfg = scfg
 	alps := c22ParseAlps(in["salps"])
@@ -494,9 +546,15 @@ func c22ExecHS(in KV) string {
 	if res.EchoOK {
 		echo = 1
 	}
-	return fmt.Sprintf("out=ok c=%s s=%s vers=%04x np=%s offered=%s calpn=%s hellos=%d ees=%s peer=%s cee=%s ceed=%s echo=%d",
+	b2i := func(b bool) int {
+		if b {
+			return 1
+		}
+		return 0
+	}
+	return fmt.Sprintf("out=ok c=%s s=%s vers=%04x np=%s offered=%s calpn=%s hellos=%d ees=%s peer=%s cee=%s ceed=%s echo=%d cres=%d sres=%d",
 		errClass(res.ClientErr), errClass(res.ServerErr), st.Version, hx([]byte(st.NegotiatedProtocol)), offered, calpn, nh,
-		hx(eeSent), hx(st.PeerApplicationSettings), ceeS, ceed, echo)
+		hx(eeSent), hx(st.PeerApplicationSettings), ceeS, ceed, echo, b2i(st.DidResume), b2i(res.ServerState.DidResume))
 }
 
 // ---- alps_codec ----
